@@ -16,7 +16,8 @@ REQUIRED = ['winning_votes_is_textbook', 'margins_is_textbook', 'pairwise_opposi
             'lockPairs_acyclic', 'isPath_iff', 'benham_in_smith_witness', 'copeland_defining', 'minimax_defining', 'worstDefeat_is_max', 'widestPaths_correct', 'winWeight_is_win_count',
             'no_candidate_dropped_copeland', 'no_candidate_dropped_minimax', 'no_candidate_dropped_schulze',
             'cw_rankedpairs_witness', 'cw_kemeny_witness', 'rankedpairs_dropped_witness', 'minimax_never_loser_fixed',
-            'benham_elimination_tie_witness', 'tideman_elimination_tie_witness', 'tideman_last_tie_witness']
+            'benham_elimination_tie_witness', 'tideman_elimination_tie_witness', 'tideman_last_tie_witness',
+            'tidemanN_one', 'tideman_all_seats_witness']
 UNPROVED = ['cw_rankedpairs (rankedPairs sc v 1 = ok [w]): FALSE as stated on the current code (cw_rankedpairs_witness: refusal '
             'although a Condorcet winner exists); proved instead: cw_rankedpairs_partial (whenever it answers, it answers [w])',
             'cw_kemeny (kemenyYoung v 1 = ok [w]): FALSE as stated on the current code (cw_kemeny_witness: refusal when a lower '
@@ -26,13 +27,26 @@ UNPROVED = ['cw_rankedpairs (rankedPairs sc v 1 = ok [w]): FALSE as stated on th
             'rankedpairs no_candidate_dropped: FALSE (rankedpairs_dropped_witness)',
             'copeland second-order defining computation (only the first-order scores are characterised: copeland_defining)']
 NAME_MODES = ['str', 'int0', 'empty0', 'person']
-REQUIRED_COUNTERS = ['converter', 'has_cw', 'sparse_never_loser', 'all_tied', 'cycle', 'from_ranked', 'uab_true', 'uab_false',
-                     'n_all', 'n_one', 'hybrid', 'second_order_used', 'fraction', 'missing_pair']
+REQUIRED_COUNTERS = ['converter', 'converter_no_bottom', 'has_cw', 'sparse_never_loser', 'all_tied', 'cycle', 'from_ranked', 'uab_true',
+                     'uab_false', 'n_all', 'n_one', 'hybrid', 'second_order_used', 'fraction', 'missing_pair',
+                     # generator audit (GENERATOR_CHECKLIST.md)
+                     'ntype:decimal', 'ntype:decimal_long', 'ntype:float_dyadic', 'ntype:float_nd', 'ntype:fraction_all',
+                     'zero_count', 'big', 'close_fraction',
+                     'wtype:fraction', 'wtype:bigint', 'wtype:decimal', 'wtype:float',
+                     'names:int0', 'names:empty0', 'names:person',
+                     'cands_6_7', 'shared3', 'only_in_shared', 'shared_first', 'long_cycle', 'tied_seats_3',
+                     'tideman_multi', 'tideman_schwartz', 'schwartz_sensitive', 'scorer_sensitive', 'uab_sensitive',
+                     'twice', 'after_refusal', 'ctor_fresh', 'ctor_callable', 'centre_squeeze']
 RULE = ('pairwise dictionaries over 2-5 candidates (6 occasionally) as in C06 (sparse / dense / tied / zero-count entries, '
         'int and Fraction counts, shuffled insertion order) and dictionaries derived with the real RankedToCondorcetVotes '
         '(unranked_at_bottom True and False) from profiles with truncated ballots and shared ranks; every entry of '
         'condorcet.EVALUATORS with every 1 <= n_seats <= #candidates; Benham and TidemanAlternative on the ranked profiles '
-        'with one seat; thorough: every assignment of five pair states to <= 4 candidates x every evaluator x every n. '
+        'with one seat; TidemanAlternative also with 2..m seats and with the Schwartz set selector; counts and ballot weights '
+        'as int / Fraction / Decimal (short and 7 decimals) / float (dyadic, non-dyadic) / integers of 10^9..10^30 and Fractions '
+        'differing in the 12th digit; candidates as strings, ints incl. 0, the empty string, Person objects; profiles of up to 7 '
+        'candidates, shared ranks of 3-4, long majority cycles; evaluator objects from the registry, freshly constructed (by name '
+        'and by scorer callable) and called twice (after a larger input, after a refusal); '
+        'thorough: every assignment of five pair states to <= 4 candidates x every evaluator x every n. '
         'Non-trivial = at least 3 candidates and a result that is not an error.')
 NOT_VERIFIED = ['dict insertion order is the protocol order (CPython dict semantics)',
                 'int/Fraction/float-infinity comparison is exact comparison',
@@ -40,6 +54,10 @@ NOT_VERIFIED = ['dict insertion order is the protocol order (CPython dict semant
                 'of equal second-order scores is canonicalised), Schulze `all_candidates` and Kemeny-Young permutations '
                 '(results do not depend on it), the frozenset `unranked` and shared ranks in RankedToCondorcetVotes '
                 '(only the insertion order of the pairwise dictionary depends on it; Benham/Tideman results do not)',
+                'hybrids with Decimal / float ballot weights on profiles that contain a shared rank are under the oracle only (the '
+                'model computes on exact rationals and cannot reproduce the TypeError of the open finding '
+                'C05-*-nonrational-weights-shared-first-rank); non-dyadic float counts only go to the evaluators that never add or '
+                'subtract counts',
                 'minimax: float -inf (which survives only for a lone candidate) is modelled as a rational above all finite negated '
                 'counter-scores (get_n_best only compares)']
 EXHAUSTIVE = {'thorough': True}
@@ -83,6 +101,19 @@ DIRECTED_PROFILES = [
     ([[[0], '2'], [[1], '2'], [[2], '1']], 'p_bullets'),
     ([[[0], '5']], 'p_single_candidate'),
     ([[[2, 1, 3], '1'], [[2, 1], '1'], [[1, 2, 3], '2'], [[0, 2, 1, 3], '3'], [[3, 1, 2, 0], '3']], 'p_benham_tie_drops_smith'),
+    # a candidate (3) that occurs only inside shared ranks; a 3-way shared rank
+    ([[[0, [1, 3], 2], '3'], [[[1, 2, 3], 0], '2'], [[2, [0, 3]], '2']], 'p_only_in_shared'),
+    # Smith {0,1,2,3} but Schwartz {0,1,2}: 3 ties 0 and beats nobody of the cycle, everybody beats 4
+    ([[[0, 1, 2, 3, 4], '3'], [[1, 2, 0, 3, 4], '3'], [[2, 0, 1, 3, 4], '3'], [[3, 0, 1, 2, 4], '9'], [[1, 2, 0, 4], '0']],
+     'p_smith_vs_schwartz'),
+]
+
+# pairwise dictionaries on which the options of an evaluator change the outcome (sensitivity witnesses)
+DIRECTED_SENSITIVE = [
+    # winning votes vs margins: 0 beats 1 by 10:9 (wv 10, margin 1), 1 beats 2 by 6:1 (wv 6, margin 5), 2 beats 0 by 8:4 (wv 8, margin 4)
+    ([(0, 1, 10), (1, 0, 9), (1, 2, 6), (2, 1, 1), (2, 0, 8), (0, 2, 4)], 'scorer_sensitive'),
+    # five candidates all tied: three and more tied seats
+    ([(a, b, 2) for a in range(5) for b in range(5) if a != b], 'tied_seats_3'),
 ]
 
 
@@ -93,9 +124,54 @@ def _pairwise_cases(rng, votes, tags, evals=None, ns=None):
             yield _mk_eval(name, votes, n, tags)
 
 
+WT_EVALS_COMPARE_ONLY = ['copeland_2o', 'copeland_raw', 'schulze', 'minimax_winvotes', 'minimax_pwo', 'rankedpairs_winvotes',
+                         'rankedpairs_pwo']      # never add or subtract counts: exact also on non-dyadic floats
+
+
+def _hybrid_cases(rng, prof, tags, wtype='int', multi=True):
+    """Benham, TidemanAlternative (Smith / Schwartz selector; one seat and several), both converters"""
+    tags = list(tags) + (['wtype:' + wtype] if wtype != 'int' else [])
+    m = len(CC.profile_cands(prof))
+    out = [_mk_hybrid('benham', prof, tags), _mk_hybrid('tideman', prof, tags)]
+    sw = _mk_hybrid('tideman', prof, tags + ['tideman_schwartz'])
+    sw['smith'] = False
+    out.append(sw)
+    if multi and m >= 2:
+        for n in sorted({2, m, rng.randint(2, m)}):
+            t = _mk_hybrid('tideman', prof, tags + ['tideman_multi'])
+            t['n'] = n
+            t['smith'] = rng.random() < 0.75
+            out.append(t)
+    out.append({'op': 'to_condorcet', 'profile': prof, '_tags': tags + ['converter']})
+    out.append({'op': 'to_condorcet', 'profile': prof, 'uab': False, '_tags': tags + ['converter', 'converter_no_bottom']})
+    for c in out:
+        if wtype != 'int':
+            c['_wtype'] = wtype
+        yield c
+
+
+def _variants(rng, cases):
+    """state between calls and constructor forms: about one case in six is evaluated on a freshly constructed evaluator
+    (by scorer name / by scorer callable), about one in six after another call of the same object (a larger input, or one it
+    refuses)"""
+    for c in cases:
+        if c['op'] in ('eval', 'benham', 'tideman'):
+            r = rng.random()
+            if r < 0.09:
+                c['_ctor'] = 'fresh'
+                c['_tags'].append('ctor_fresh')
+            elif r < 0.17 and c['op'] == 'eval' and (c['name'].startswith('rankedpairs') or c['name'].startswith('minimax')):
+                c['_ctor'] = 'callable'
+                c['_tags'].append('ctor_callable')
+            elif r < 0.34:
+                c['_pre'] = rng.choice(['larger', 'refusal'])
+                c['_tags'] += ['twice'] + (['after_refusal'] if c['_pre'] == 'refusal' else [])
+        yield c
+
+
 def _gen(rng, tier):
     N = 300 if tier == 'quick' else 2500
-    for ent, tag in DIRECTED:
+    for ent, tag in DIRECTED + DIRECTED_SENSITIVE:
         m = 1 + max(max(a, b) for a, b, _ in ent)
         perm = list(range(m))
         rng.shuffle(perm)
@@ -103,8 +179,12 @@ def _gen(rng, tier):
         rng.shuffle(e2)
         yield from _pairwise_cases(rng, e2, [tag, 'directed'])
     for prof, tag in DIRECTED_PROFILES:
-        for op in ('benham', 'tideman'):
-            yield _mk_hybrid(op, prof, [tag, 'directed'])
+        yield from _hybrid_cases(rng, prof, [tag, 'directed'])
+    # unranked_at_bottom changes the outcome: bullet ballots
+    prof = [[[0], '3'], [[1, 2], '2'], [[2, 1], '2']]
+    for uab in (True, False):
+        yield from _pairwise_cases(rng, CC.profile_to_pairwise(prof, uab), ['directed', 'uab_sensitive', 'from_ranked',
+                                                                           'uab_true' if uab else 'uab_false'])
     # centre squeeze: candidate 0 beats everybody pairwise but has the fewest first preferences (so an elimination method that
     # overlooks the Condorcet winner elects somebody else); under every naming mode - in int0 / empty0 candidate 0 is FALSY
     for t in range(9 if tier == 'quick' else 90):
@@ -121,23 +201,54 @@ def _gen(rng, tier):
             cs['_names'] = ['str', 'int0', 'empty0'][t % 3]
             cs['_tags'].append('names:' + cs['_names'])
             yield cs
+    # long majority cycles without a Condorcet winner (4-7 candidates), through every evaluator and both hybrids
+    import families
+    for t in range(6 if tier == 'quick' else 60):
+        m = rng.choice([4, 5, 5, 6, 7])
+        prof = families.gen_ranked_cycle(rng, m)
+        yield from _hybrid_cases(rng, prof, ['ranked_cycle', 'from_ranked'])
+        votes = CC.profile_to_pairwise(prof, True)
+        ev = [e for e in EVALS if e != 'kemeny_young' or m <= 6]
+        yield from _pairwise_cases(rng, votes, ['ranked_cycle', 'from_ranked', 'uab_true'], evals=ev,
+                                   ns=sorted({1, 2, len(CC.profile_cands(prof))}))
+    # profiles of 5-7 candidates with shared ranks of up to four, every weight type
+    for t in range(20 if tier == 'quick' else 200):
+        m = rng.choice([5, 6, 6, 7])
+        wtype = CC.WTYPES[t % len(CC.WTYPES)]
+        prof = CC.random_profile(rng, m, n_ballots=rng.randint(3, 8), wtype=wtype, max_shared=4)
+        yield from _hybrid_cases(rng, prof, ['from_ranked', 'large_profile'], wtype=wtype)
+        votes = CC.profile_to_pairwise(prof, rng.random() < 0.5)
+        if votes:
+            mm = len(CC.cands_of({'votes': votes}))
+            ev = [e for e in EVALS if e != 'kemeny_young' or mm <= 6]
+            yield from _pairwise_cases(rng, votes, ['from_ranked', 'large_profile'], evals=ev, ns=sorted({1, mm, rng.randint(1, mm)}))
     for k in range(N):
         r = rng.random()
         m = rng.choice([2, 3, 3, 4, 4, 4, 5, 5]) if rng.random() < 0.95 else 6
         if r < 0.55:
             kind = rng.choice(['dense', 'sparse', 'sparse', 'tied', 'plain'])
             votes = CC.random_pairwise(rng, m, kind)
-            if votes:
-                yield from _pairwise_cases(rng, votes, ['kind_' + kind])
+            if not votes:
+                continue
+            tags = ['kind_' + kind]
+            # numeric type of the counts: about a third of the small integer dictionaries are re-typed
+            if rng.random() < 0.35 and all('/' not in s and len(s) < 6 for _, _, s in votes):
+                nt = CC.NTYPES[k % len(CC.NTYPES)]
+                votes = CC.retype_votes(votes, nt)
+                for c in _pairwise_cases(rng, votes, tags + ['ntype:' + nt],
+                                         evals=WT_EVALS_COMPARE_ONLY if nt == 'float_nd' else None):
+                    c['_ntype'] = nt
+                    yield c
+            else:
+                yield from _pairwise_cases(rng, votes, tags)
         else:
-            prof = CC.random_profile(rng, m)
+            wtype = rng.choice(['int'] * 6 + CC.WTYPES[1:])
+            prof = CC.random_profile(rng, m, wtype=wtype)
             for uab in (True, False):
                 votes = CC.profile_to_pairwise(prof, uab)
                 if votes:
                     yield from _pairwise_cases(rng, votes, ['from_ranked', 'uab_true' if uab else 'uab_false'])
-            yield _mk_hybrid('benham', prof, ['from_ranked'])
-            yield _mk_hybrid('tideman', prof, ['from_ranked'])
-            yield {'op': 'to_condorcet', 'profile': prof, '_tags': ['from_ranked', 'converter']}
+            yield from _hybrid_cases(rng, prof, ['from_ranked'], wtype=wtype, multi=rng.random() < 0.5)
     if tier == 'thorough':
         for m in (2, 3, 4):
             for votes in CC.exhaustive_pairwise(m, CC.PAIR_STATES):
@@ -153,18 +264,34 @@ def _gen(rng, tier):
                 prof = [[balls[i], w] for i, w in zip(combo, ws)]
                 yield _mk_hybrid('benham', prof, ['exhaustive'])
                 yield _mk_hybrid('tideman', prof, ['exhaustive'])
+                t = _mk_hybrid('tideman', prof, ['exhaustive', 'tideman_multi'])
+                t['n'] = 2
+                yield t
 
 
 def generate(rng, tier):
-    for c in _gen(rng, tier):
+    for c in _variants(rng, _gen(rng, tier)):
         if c['op'] == 'eval':
             c['_tags'] += CC.features(c)
             m = len(CC.cands_of(c))
             c['_tags'].append('n_all' if c['n'] == m else 'n_one' if c['n'] == 1 else 'n_mid')
             if any('/' in s for _, _, s in c['votes']):
                 c['_tags'].append('fraction')
+            if any(Fraction(s) == 0 for _, _, s in c['votes']):
+                c['_tags'].append('zero_count')
+            if any(Fraction(s) >= 10 ** 9 for _, _, s in c['votes']):
+                c['_tags'].append('big')
+            if any(Fraction(s).denominator >= 10 ** 12 for _, _, s in c['votes']) and '_ntype' not in c:
+                c['_tags'].append('close_fraction')
             if c['name'] == 'copeland_2o' and _copeland_boundary_tie(c):
                 c['_tags'].append('second_order_used')
+        else:
+            c['_tags'] += CC.profile_features(c['profile'])
+            if c['op'] == 'tideman' and not c.get('smith', True):
+                d = CC.own_pairwise(c['profile'])
+                pc = sorted({x for p in d for x in p})
+                if pc and CC.smith_set(d, pc) != CC.schwartz_set(d, pc):
+                    c['_tags'].append('schwartz_sensitive')
         yield c
 
 
@@ -180,29 +307,98 @@ def _copeland_boundary_tie(c):
 # implementation
 
 def _hybrid_pairwise(case):
-    """pairwise dict (protocol ids) of a hybrid case, by the real default converter"""
-    import votelib.convert
-    d = votelib.convert.RankedToCondorcetVotes().convert(CC.profile_dict(case['profile']))
-    return {(NAMES.i(a), NAMES.i(b)): Fraction(c) for (a, b), c in d.items()}
+    """pairwise counts (protocol ids) of a hybrid case from the definition (own converter, unranked candidates at the bottom)"""
+    return CC.own_pairwise(case['profile'], True)
+
+
+_FRESH = {
+    'rankedpairs_winvotes': lambda vc, ps: vc.RankedPairs('winning_votes'),
+    'rankedpairs_margins': lambda vc, ps: vc.RankedPairs(pairwin_scoring='margins'),
+    'rankedpairs_pwo': lambda vc, ps: vc.RankedPairs('pairwise_opposition'),
+    'copeland_2o': lambda vc, ps: vc.Copeland(second_order=True),
+    'copeland_raw': lambda vc, ps: vc.Copeland(second_order=False),
+    'schulze': lambda vc, ps: vc.Schulze(),
+    'kemeny_young': lambda vc, ps: vc.KemenyYoung(),
+    'minimax_winvotes': lambda vc, ps: vc.MinimaxCondorcet('winning_votes'),
+    'minimax_margins': lambda vc, ps: vc.MinimaxCondorcet(pairwin_scoring='margins'),
+    'minimax_pwo': lambda vc, ps: vc.MinimaxCondorcet('pairwise_opposition'),
+}
+_CALLABLE = {
+    'rankedpairs_winvotes': lambda vc, ps: vc.RankedPairs(ps.winning_votes),
+    'rankedpairs_margins': lambda vc, ps: vc.RankedPairs(ps.margins),
+    'rankedpairs_pwo': lambda vc, ps: vc.RankedPairs(ps.pairwise_opposition),
+    'minimax_winvotes': lambda vc, ps: vc.MinimaxCondorcet(ps.winning_votes),
+    'minimax_margins': lambda vc, ps: vc.MinimaxCondorcet(ps.margins),
+    'minimax_pwo': lambda vc, ps: vc.MinimaxCondorcet(ps.pairwise_opposition),
+}
+_SHARED = {}          # one hybrid object per configuration, reused by every case of the run (state between calls)
+
+
+def _decoy_votes(kind):
+    """another input for the same evaluator object, evaluated first: a larger dense dictionary over five candidates (own names,
+    disjoint from the case's), or one the refusing evaluators refuse (two disconnected tied majorities)"""
+    if kind == 'larger':
+        return {(f'z{a}', f'z{b}'): 1 + (3 * a + 5 * b) % 7 for a in range(5) for b in range(5) if a != b}
+    return {('z0', 'z1'): 2, ('z1', 'z0'): 2, ('z2', 'z3'): 2, ('z3', 'z2'): 2}
+
+
+def _decoy_profile(kind):
+    if kind == 'larger':
+        return {('z0', 'z1', 'z2', 'z3', 'z4'): 3, ('z1', 'z2', 'z3', 'z4', 'z0'): 2, ('z2', 'z3', 'z4', 'z0', 'z1'): 2,
+                ('z4', 'z3'): 1}
+    return {('z0', 'z1', 'z2'): 2, ('z1', 'z2', 'z0'): 2, ('z2', 'z0', 'z1'): 2}        # elimination tie: IndexError
 
 
 def impl(case):
     import votelib.evaluate.condorcet as vc
     import votelib.evaluate.sequential as vs
+    import votelib.component.pairwin_scorer as ps
+    import votelib.convert
+    ctor, pre = case.get('_ctor'), case.get('_pre')
     if case['op'] == 'eval':
         votes = CC.votes_dict(case)
-        ev = vc.EVALUATORS[case['name']]
+        if ctor == 'fresh':
+            ev = _FRESH[case['name']](vc, ps)
+        elif ctor == 'callable':
+            ev = _CALLABLE[case['name']](vc, ps)
+        else:
+            ev = vc.EVALUATORS[case['name']]
+        if pre:
+            guarded(lambda: ev.evaluate(_decoy_votes(pre), 2))
         return guarded(lambda: enc_selection(ev.evaluate(votes, case['n']), NAMES))
-    prof = CC.profile_dict(case['profile'])
+    prof = CC.profile_dict(case['profile'], case.get('_wtype'))
     if case['op'] == 'to_condorcet':
-        import votelib.convert
-        return guarded(lambda: sorted([NAMES.i(a), NAMES.i(b), num_str(c)] for (a, b), c in
-                                      votelib.convert.RankedToCondorcetVotes().convert(prof).items()))
+        conv = votelib.convert.RankedToCondorcetVotes(unranked_at_bottom=case.get('uab', True))
+        return guarded(lambda: sorted([NAMES.i(a), NAMES.i(b), num_str(Fraction(c))] for (a, b), c in conv.convert(prof).items()))
+    smith = case.get('smith', True)
+    key = (case['op'], smith)
+    if ctor == 'fresh' or key not in _SHARED:
+        if case['op'] == 'benham':
+            ev = vs.Benham()
+        else:
+            ev = vs.TidemanAlternative() if smith and ctor != 'fresh' else \
+                vs.TidemanAlternative(set_selector=vc.SmithSet() if smith else vc.SchwartzSet())
+        if ctor != 'fresh':
+            _SHARED[key] = ev
+    else:
+        ev = _SHARED[key]
+    if pre:
+        guarded(lambda: ev.evaluate(_decoy_profile(pre), 1))
     if case['op'] == 'benham':
-        return guarded(lambda: enc_selection(vs.Benham().evaluate(prof, 1), NAMES))
+        return guarded(lambda: enc_selection(ev.evaluate(prof, 1), NAMES))
     if case['op'] == 'tideman':
-        return guarded(lambda: enc_selection(vs.TidemanAlternative().evaluate(prof, 1), NAMES))
+        return guarded(lambda: enc_selection(ev.evaluate(prof, case.get('n', 1)), NAMES))
     raise ValueError(case['op'])
+
+
+def model_line(case):
+    c = strip_case(case)
+    if case['op'] in ('benham', 'tideman') and case.get('_wtype') in ('decimal', 'float') \
+            and any(isinstance(it, list) for b, _ in case['profile'] for it in b):
+        # open finding C05-hybrid-decimal-shared-rank: Gregory's equal split raises TypeError for Decimal / float weights; the
+        # model works on exact rationals and cannot see the numeric type, so these cases are under the oracle only
+        return None
+    return c
 
 
 # ------------------------------------------------------------------------------------------------
@@ -304,14 +500,9 @@ def oracle(case, obs):
     hybrid = case['op'] != 'eval'
     if hybrid:
         d = _hybrid_pairwise(case)
-        cands = []
-        for ballot, _ in case['profile']:
-            for it in ballot:
-                for c in (it if isinstance(it, list) else [it]):
-                    if c not in cands:
-                        cands.append(c)
+        cands = CC.profile_cands(case['profile'])
         pw_cands = sorted({c for p in d for c in p})
-        name, n = case['op'], 1
+        name, n = case['op'], case.get('n', 1)
     else:
         d = CC.dmap(case)
         cands = CC.cands_of(case)
@@ -344,11 +535,32 @@ def oracle(case, obs):
             if fr is not None and len(fr[0]) >= n and not (cw and n == 1):
                 out.append(('refuses_determined', f'locked majorities force {fr[0][:n]}'))
         return out
-    # (2) Smith set, one seat
+    # (2) Smith set, one seat (Tideman alternative with the Schwartz selector: the Schwartz set)
+    schwartz = hybrid and not case.get('smith', True)
     if n == 1 and (hybrid or name in SMITH_METHODS) and len(pw_cands) >= 1 and (not hybrid or set(pw_cands) == set(cands)):
-        smith = CC.smith_set(d, pw_cands)
+        smith = CC.schwartz_set(d, pw_cands) if schwartz else CC.smith_set(d, pw_cands)
         if obs and not (_listed(obs[:1]) & smith if isinstance(obs[0], dict) else obs[0] in smith):
-            out.append(('smith_violation', f'first place {obs[0]} outside the Smith set {sorted(smith)}'))
+            out.append(('schwartz_violation' if schwartz else 'smith_violation',
+                        f'first place {obs[0]} outside the {"Schwartz" if schwartz else "Smith"} set {sorted(smith)}'))
+    if hybrid and n >= 2:
+        # several seats (Tideman alternative): one tier per seat among the candidates not seated yet
+        if any(isinstance(x, dict) for x in obs) or len(set(obs)) != len(obs) or len(obs) != min(n, m) \
+                or not set(obs) <= set(cands):
+            out.append(('tier_shape', f'{len(obs)} places for {n} seats and {m} candidates: {obs}'))
+        else:
+            if cw and obs[0] != cw[0]:
+                out.append(('cw_not_first', f'Condorcet winner {cw[0]}, got {obs}'))
+            for k, c in enumerate(obs):
+                rest = [x for x in cands if x not in obs[:k]]
+                dr = {(x, y): v for (x, y), v in d.items() if x in rest and y in rest}
+                rc = sorted({x for pq in dr for x in pq})
+                if set(rc) != set(rest):
+                    break            # a remaining candidate outside every remaining contest: no set to compare with
+                sset = CC.schwartz_set(dr, rc) if schwartz else CC.smith_set(dr, rc)
+                if c not in sset:
+                    out.append(('tier_outside_set', f'seat {k + 1} goes to {c}, outside the {"Schwartz" if schwartz else "Smith"} '
+                                                    f'set {sorted(sset)} of the candidates left'))
+                    break
     if hybrid:
         return out
     # (3) nobody dropped when every candidate can be seated
@@ -483,11 +695,15 @@ def shrink_candidates(case):
 
 def describe(case):
     if case['op'] == 'eval':
-        return f"votelib.evaluate.condorcet.EVALUATORS[{case['name']!r}].evaluate({CC.votes_dict(case)!r}, {case['n']})"
+        return (f"votelib.evaluate.condorcet.EVALUATORS[{case['name']!r}]" + (f" ({case['_ctor']} instance)" if case.get('_ctor') else '')
+                + f".evaluate({CC.votes_dict(case)!r}, {case['n']})" + (f" after a {case['_pre']} input" if case.get('_pre') else ''))
     if case['op'] == 'to_condorcet':
-        return f"votelib.convert.RankedToCondorcetVotes().convert({CC.profile_dict(case['profile'])!r})"
-    cls = 'Benham' if case['op'] == 'benham' else 'TidemanAlternative'
-    return f"votelib.evaluate.sequential.{cls}().evaluate({CC.profile_dict(case['profile'])!r}, 1)"
+        return (f"votelib.convert.RankedToCondorcetVotes(unranked_at_bottom={case.get('uab', True)})"
+                f".convert({CC.profile_dict(case['profile'], case.get('_wtype'))!r})")
+    cls = 'Benham()' if case['op'] == 'benham' else \
+        'TidemanAlternative()' if case.get('smith', True) else 'TidemanAlternative(SchwartzSet())'
+    return (f"votelib.evaluate.sequential.{cls}.evaluate({CC.profile_dict(case['profile'], case.get('_wtype'))!r}, "
+            f"{case.get('n', 1)})" + (f" after a {case['_pre']} input" if case.get('_pre') else ''))
 
 
 TECHNIQUE = ('Lean 4 proofs of Condorcet-winner consistency and no-candidate-dropped for the modelled evaluators (unbounded) '
